@@ -134,14 +134,19 @@ func GenProgram(rng *rand.Rand, id string, cfg Cfg, g GenOpts) *Program {
 		if g.CrashAt && rng.Intn(10) == 0 && len(g.Keys) >= 6 {
 			// layers: puts of some keys (old segment), their deletes plus garbage (middle segment), more puts (newest
 			// segment); the process dies, the directory is recovered, compacted, and the process dies again
+			// (value lengths follow the segment size, so that each layer fills about one segment whatever that size is)
+			unit := int(cfg.MaxSeg) / 4
+			if unit < 150 {
+				unit = 150
+			}
 			ks := []string{g.Keys[rng.Intn(len(g.Keys))], g.Keys[rng.Intn(len(g.Keys))], g.Keys[rng.Intn(len(g.Keys))]}
 			for _, k := range ks {
-				p.Ops = append(p.Ops, Op{Op: "put", K: k, V: fmt.Sprintf("L%d_", len(p.Ops)), VL: 150 + rng.Intn(200)})
+				p.Ops = append(p.Ops, Op{Op: "put", K: k, V: fmt.Sprintf("L%d_", len(p.Ops)), VL: unit/2 + rng.Intn(unit/2)})
 				live[k] = true
 			}
 			others := []string{pick(), pick(), pick()}
 			for _, k := range others {
-				p.Ops = append(p.Ops, Op{Op: "put", K: k, V: fmt.Sprintf("L%d_", len(p.Ops)), VL: 200 + rng.Intn(300)})
+				p.Ops = append(p.Ops, Op{Op: "put", K: k, V: fmt.Sprintf("L%d_", len(p.Ops)), VL: unit/2 + rng.Intn(unit)})
 				live[k] = true
 			}
 			for _, k := range ks {
@@ -149,11 +154,11 @@ func GenProgram(rng *rand.Rand, id string, cfg Cfg, g GenOpts) *Program {
 				delete(live, k)
 			}
 			for _, k := range others {
-				p.Ops = append(p.Ops, Op{Op: "put", K: k, V: fmt.Sprintf("L%d_", len(p.Ops)), VL: 200 + rng.Intn(300)})
+				p.Ops = append(p.Ops, Op{Op: "put", K: k, V: fmt.Sprintf("L%d_", len(p.Ops)), VL: unit/2 + rng.Intn(unit)})
 			}
 			for n := 2 + rng.Intn(3); n > 0; n-- {
 				k := pick()
-				p.Ops = append(p.Ops, Op{Op: "put", K: k, V: fmt.Sprintf("L%d_", len(p.Ops)), VL: 100 + rng.Intn(300)})
+				p.Ops = append(p.Ops, Op{Op: "put", K: k, V: fmt.Sprintf("L%d_", len(p.Ops)), VL: unit/3 + rng.Intn(unit)})
 				live[k] = true
 			}
 			p.Ops = append(p.Ops, Op{Op: "crashnow"}, Op{Op: "compact"}, Op{Op: "crashnow"}, Op{Op: "readall"})
@@ -354,7 +359,18 @@ func GenProgram(rng *rand.Rand, id string, cfg Cfg, g GenOpts) *Program {
 			}
 		case x < 92:
 			if g.Tear && rng.Intn(2) == 0 {
-				p.Ops = append(p.Ops, Op{Op: "tear", V: fmt.Sprintf("\xff\xfegarbage%d", rng.Intn(100)), VL: []int{0, 3, 9, 40, 700}[rng.Intn(5)]})
+				t := Op{Op: "tear", V: fmt.Sprintf("\xff\xfegarbage%d", rng.Intn(100)), VL: []int{0, 3, 9, 40, 700}[rng.Intn(5)]}
+				switch rng.Intn(6) {
+				case 0:
+					// the tail lost data: part of the last record, several records, or the whole segment body
+					t.Cut = []int{1, 5, 13, 300, 2000, 1 << 20}[rng.Intn(6)]
+				case 1:
+					if rng.Intn(3) == 0 {
+						// ... or even part of the header of the newest segment (the run ends with that Open)
+						t.N = []int{7, 12, 100, 511}[rng.Intn(4)]
+					}
+				}
+				p.Ops = append(p.Ops, t)
 			} else if g.Reopen || g.MoreReopen {
 				p.Ops = append(p.Ops, Op{Op: "reopen"})
 			}
@@ -391,7 +407,8 @@ func GenProgram(rng *rand.Rand, id string, cfg Cfg, g GenOpts) *Program {
 
 // SmallCfg draws thresholds that spread records over many small segments.
 func SmallCfg(rng *rand.Rand, syncw bool) Cfg {
-	segs := []uint32{700, 1024, 1536, 2048, 4096}
+	// two sizes span several 4096-byte read-buffer fills of the segment iterator (records straddle offsets 512+4096k)
+	segs := []uint32{700, 1024, 1536, 2048, 4096, 9000, 13000}
 	frags := []float32{0.0001, 0.05, 0.25, 0.5}
 	return Cfg{FS: "crashfs", SyncW: syncw, MaxSeg: segs[rng.Intn(len(segs))], MinSeg: 1,
 		MinFrag: frags[rng.Intn(len(frags))], Strict: true}
